@@ -14,6 +14,7 @@ def main (args : List String) : IO UInt32 := do
   | ["pure"] => pureLoop stdin stdout; return 0
   | ["adder"] => Driver.acceptLoop Driver.adderAcceptor stdin stdout; return 0
   | ["breaker"] => Driver.acceptLoop Driver.breakerAcceptor stdin stdout; return 0
+  | ["poolstep"] => Driver.acceptLoop Driver.poolStepAcceptor stdin stdout; return 0
   | ["pool"] => Driver.acceptLoop Driver.poolAcceptor stdin stdout; return 0
   | ["mqueue"] => Driver.acceptLoop Driver.mqueueAcceptor stdin stdout; return 0
   | ["madder"] => Driver.acceptLoop Driver.madderAcceptor stdin stdout; return 0
